@@ -64,7 +64,7 @@ def run_structure(run, pid, kind, dialects, cfgs):
         ne = stmt.check_element_sites(run, pid + ".R3", f, cfg, select=sel)
         run.floor(pid + ".R3", "element-sites", ne, 25 if kind == "query" else 4, cfg)
         nh = stmt.check_hooks(run, pid + ".R6", f, cfg, select=sel)
-        run.floor(pid + ".R6", "hook-calls", nh, 10 if kind == "query" else 3, cfg)
+        run.floor(pid + ".R6", "hook-calls", nh, {"full": 10, "single": 8} if kind == "query" else 3, cfg)
         if kind == "schema":
             if "sqlite" in present:
                 nt = coltypes.check_sqlite(run, pid + ".R2", f, cfg)
